@@ -943,6 +943,16 @@ func (s *blobStore) completePushAfterInitialPost(ctx context.Context, req *http.
 	if resp.StatusCode != http.StatusCreated {
 		return errutil.ParseErrorResponse(resp)
 	}
+	// Check the server seems to be behaving: a well-formed digest reported for
+	// the uploaded blob must be the expected one.
+	if serverDigest, err := digest.Parse(resp.Header.Get(headerDockerContentDigest)); err == nil && serverDigest != expected.Digest {
+		return fmt.Errorf(
+			"%s %q: invalid response; digest mismatch in %s: received %q when expecting %q",
+			resp.Request.Method, resp.Request.URL,
+			headerDockerContentDigest, serverDigest,
+			expected.Digest,
+		)
+	}
 	return nil
 }
 
